@@ -3664,11 +3664,13 @@ class Parameters:
             )
 
         parameter_names = watcher.parameter_names
+        # Check every name before (un)registering for any of them
         for parameter_name in parameter_names:
             if parameter_name not in self_.cls.param:
                 raise ValueError("{} parameter was not found in list of "
                                  "parameters of class {}".format(parameter_name, self_.cls.__name__))
 
+        for parameter_name in parameter_names:
             if self_.self is not None and what == "value":
                 watchers = self_.self._param__private.watchers
                 if parameter_name not in watchers:
